@@ -10,6 +10,7 @@ evaluated, for every count in a finite range that covers all residues of the loo
 The execution records every byte range read or written through each tracked buffer, so a rule
 can decide "all accesses lie inside [0, extent)" and "every input byte is read" per count.
 """
+import re
 from ..facts import src
 
 U = ("U",)   # unknown value
@@ -127,6 +128,23 @@ def wrap(v, t):
     return v
 
 
+class FuncRef:
+    """The address of a function of the program (an entry of a function-pointer table)."""
+    __slots__ = ("name",)
+
+    def __init__(self, name):
+        self.name = name
+
+    def __repr__(self):
+        return "&%s" % self.name
+
+    def __eq__(self, o):
+        return isinstance(o, FuncRef) and o.name == self.name
+
+    def __hash__(self):
+        return hash(("fn", self.name))
+
+
 class StructVal:
     """A struct rvalue (returned, passed or assigned by value): {byte offset: member value}."""
     __slots__ = ("fields", "size")
@@ -218,6 +236,9 @@ class Interp:
             self.acc = []
             self.events = []
             self.heap = dict(self.heap0) if self.heap0 is not None else None
+            self._objs = 0
+            if getattr(self, "on_path_start", None) is not None:
+                self.on_path_start()        # hooks with per-path state (allocation counters, file position) reset it
             env = {}
             for p, v in zip(self.fn.params, args):
                 env[p["d"]] = v
@@ -481,6 +502,84 @@ class Interp:
             return True
         return self.decide(e)
 
+    # ---- const file-scope objects (lookup tables): materialised from their initialisers
+    def sizeof(self, t):
+        t = clean_type(t or "").replace("struct ", "").strip()
+        if t.endswith("*") or "(*)" in t:
+            return 8
+        m = re.match(r"^(.*?)\[(\d+)\](.*)$", t)
+        if m:
+            inner = self.sizeof((m.group(1) + m.group(3)).strip())
+            return int(m.group(2)) * inner if inner else None
+        if t in TYPE_SIZES:
+            return TYPE_SIZES[t]
+        if t in RECORD_SIZES:
+            return RECORD_SIZES[t]
+        if t.startswith("enum ") or t in self.P.enums or (t.endswith("_t") and t[:-2] in self.P.enums):
+            return 4
+        return None
+
+    def global_ptr(self, name, fn):
+        """Ptr to a const file-scope object whose initialiser is known (its members are put in the heap)."""
+        if self.heap is None:
+            return None
+        cache = self.__dict__.setdefault("_globals", {})
+        if name in cache:
+            g = cache[name]
+        else:
+            cands = [g_ for u, g_ in self.P.globals if g_["name"] == name and g_.get("init") is not None]
+            same = [g_ for g_ in cands if g_.get("file") == fn.file]
+            g = (same or cands or [None])[0]
+            cache[name] = g
+        if g is None or not g.get("const"):
+            return None
+        base = "g:" + name
+        size = self.sizeof(g["t"])
+        if not size:
+            return None
+        if (base, "filled") not in self.heap:
+            self.heap[(base, "filled")] = 1
+            self._fill(base, 0, g["t"], g["init"], fn)
+        t = clean_type(g["t"])
+        m = re.match(r"^(.*?)\[(\d+)\](.*)$", t)
+        esz = self.sizeof((m.group(1) + m.group(3)).strip()) if m else size
+        return Ptr(base, 0, esz or 1)
+
+    def _fill(self, base, off, t, node, fn):
+        t = clean_type(t or "").strip()
+        n = node.strip() if node is not None and hasattr(node, "strip") else node
+        m = re.match(r"^(.*?)\[(\d+)\](.*)$", t)
+        if m:
+            et = (m.group(1) + m.group(3)).strip()
+            esz = self.sizeof(et)
+            if not esz:
+                return
+            kids = [x for x in n.c] if n is not None and n.k == "InitListExpr" else []
+            for i in range(int(m.group(2))):
+                self._fill(base, off + i * esz, et, kids[i] if i < len(kids) else None, fn)
+            return
+        rec = self.record_of(t)
+        if rec is not None:
+            fields = [f for f in rec["fields"] if f.get("off") is not None and f["n"]]
+            kids = [x for x in n.c] if n is not None and n.k == "InitListExpr" else []
+            for i, f in enumerate(fields):
+                self._fill(base, off + f["off"] // 8, f["t"], kids[i] if i < len(kids) else None, fn)
+            return
+        if n is None or n.k == "ImplicitValueInitExpr":
+            self.heap[(base, off)] = 0
+            return
+        if n.cv is not None:
+            self.heap[(base, off)] = wrap(n.cv, t)
+            return
+        x = n.strip_casts()
+        if x is not None and x.k == "UnaryOperator" and x.op == "&":
+            x = x.c[0].strip_casts()
+        if x is not None and x.k == "DeclRefExpr" and x.get("dk") in ("func", "function") or (
+                x is not None and x.k == "DeclRefExpr" and x.name in self.P.by_name):
+            self.heap[(base, off)] = FuncRef(x.name)
+            return
+        self.heap[(base, off)] = U
+
     # ---- struct objects and struct values
     def new_object(self, name, size):
         self._objs = getattr(self, "_objs", 0) + 1
@@ -554,6 +653,10 @@ class Interp:
         if n.k == "DeclRefExpr" and ("obj", n.get("d")) in env:
             o = env[("obj", n.get("d"))]
             return o, o.esz
+        if n.k == "DeclRefExpr" and n.get("dk") == "global":
+            g = self.global_ptr(n.name, fn)
+            if g is not None:
+                return g, (self.sizeof(n.t) or g.esz)
         if n.k == "UnaryOperator" and n.op == "*":
             p = self.ev(n.c[0], env, fn, depth)
             sz = TYPE_SIZES.get(clean_type(n.t), None)
@@ -643,6 +746,12 @@ class Interp:
             d = e.get("d")
             if d is not None and d in env:
                 return ("LV", d)
+            if e.get("dk") == "global" and self.heap is not None:
+                g = self.global_ptr(e.name, fn)
+                if g is not None:
+                    return g if "[" in (e.t or "") else ("MEM", e)
+            if self.heap is not None and e.name in self.P.by_name and e.get("dk") not in ("local", "param", "global", "enum"):
+                return FuncRef(e.name)
             return U
         if k == "IntegerLiteral" or k == "CharacterLiteral":
             return e.get("v")
@@ -653,6 +762,10 @@ class Interp:
         if k == "ConditionalOperator":
             c = self.ev(e.c[0], env, fn, depth)
             c = self.rv(c, env)
+            if isinstance(c, tuple) and c and c[0] == "MEM":
+                c = self.load(c[1], c, env, fn, depth)
+            if isinstance(c, (Ptr, FuncRef)):
+                c = 1               # a pointer to an object is not null
             if isinstance(c, int):
                 return self.rv(self.ev(e.c[1] if c else e.c[2], env, fn, depth), env)
             if self.decide(e):
@@ -906,6 +1019,12 @@ class Interp:
     def call(self, e, env, fn, depth):
         name = e.callee
         args = [self.rv(self.ev(a, env, fn, depth), env) for a in e.args()]
+        if name is None and self.heap is not None and e.c and e.c[0] is not None:
+            tgt = self.rv(self.ev(e.c[0], env, fn, depth), env)
+            if isinstance(tgt, tuple) and tgt and tgt[0] == "MEM":
+                tgt = self.load(tgt[1], tgt, env, fn, depth)
+            if isinstance(tgt, FuncRef):
+                name = tgt.name
         if name is None:
             return U
         if name in self.hooks:
